@@ -1036,26 +1036,293 @@ def _bool_field_conds(F, body, du, block, adt):
     return out
 
 
+# ---- the Config VALUE that reaches a compile site: forward abstract evaluation of MIR, through helpers (by value, by &mut, two levels deep)
+_TOP = frozenset(['?'])
+
+
+def _is_config_ty(ty):
+    return isinstance(ty, str) and ty.replace('&mut ', '').replace('&', '').strip() == CONFIG
+
+
+def _config_fields(F):
+    return [f['name'] for f in F.adt(CONFIG)['variants'][0]['fields']]
+
+
+def _cfg_top(F):
+    return {f: _TOP for f in _config_fields(F)}
+
+
+def _cfg_join(a, b):
+    """Join of two abstract values (None = unknown)."""
+    if a is None or b is None:
+        return None
+    if isinstance(a, dict) and isinstance(b, dict):
+        return {f: a[f] | b[f] for f in a}
+    if isinstance(a, frozenset) and isinstance(b, frozenset):
+        return a | b
+    return a if a == b else None
+
+
+def _cfg_state_join(x, y):
+    if x is None:
+        return y
+    if y is None:
+        return x
+    out = {}
+    for k in x:
+        if k in y:
+            v = _cfg_join(x[k], y[k])
+            if v is not None:
+                out[k] = v
+    return out
+
+
+class _ConfigEval:
+    """Abstract values: bool -> frozenset of 'true' / 'false' / '?'; Config -> {field: such a set}; ('ref', key) for `&[mut] local`.
+    A local that is not in the state is unknown.  Calls to functions whose MIR is available are evaluated on the abstract
+    arguments (depth-limited); a `&mut Config` handed to anything else makes the referent unknown."""
+
+    def __init__(self, F, depth=3):
+        self.F = F
+        self.depth = depth
+
+    def operand(self, body, st, o):
+        if 'c' in o:
+            return frozenset([o['c']]) if o.get('c') in ('true', 'false') else None
+        pl = o.get('cp') or o.get('mv')
+        if pl is None:
+            return None
+        return self.place(body, st, pl)
+
+    def place(self, body, st, pl):
+        key, proj = pl['l'], list(pl.get('p') or [])
+        v = st.get(key)
+        while proj and proj[0] == '*':
+            if not (isinstance(v, tuple) and v[0] == 'ref'):
+                return None
+            key = v[1]
+            v = st.get(key)
+            proj.pop(0)
+        if not proj:
+            if v is None and _is_config_ty(self.ty(body, key)) and not str(self.ty(body, key)).startswith('&'):
+                return None
+            return v
+        if len(proj) == 1 and isinstance(proj[0], dict) and proj[0].get('adt') == CONFIG and 'f' in proj[0]:
+            return v.get(proj[0]['f'], _TOP) if isinstance(v, dict) else _TOP
+        return None
+
+    def ty(self, body, key):
+        return body.locals[key].get('ty') if isinstance(key, int) and key < len(body.locals) else CONFIG
+
+    def write(self, body, st, pl, v):
+        key, proj = pl['l'], list(pl.get('p') or [])
+        while proj and proj[0] == '*':
+            r = st.get(key)
+            if not (isinstance(r, tuple) and r[0] == 'ref'):
+                # a write through an untracked pointer: every Config we know may have changed
+                for k in [k for k, x in st.items() if isinstance(x, dict)]:
+                    st.pop(k)
+                return
+            key = r[1]
+            proj.pop(0)
+        if not proj:
+            if v is None:
+                st.pop(key, None)
+            else:
+                st[key] = v
+            return
+        if len(proj) == 1 and isinstance(proj[0], dict) and proj[0].get('adt') == CONFIG and 'f' in proj[0]:
+            cur = st.get(key)
+            cur = dict(cur) if isinstance(cur, dict) else _cfg_top(self.F)
+            cur[proj[0]['f']] = v if isinstance(v, frozenset) else _TOP
+            st[key] = cur
+            return
+        if any(isinstance(e, dict) and e.get('adt') == CONFIG for e in proj):
+            st.pop(key, None)
+
+    def rvalue(self, body, st, rv):
+        k = rv['k']
+        if k == 'use':
+            return self.operand(body, st, rv['o'])
+        if k == 'ref':
+            pl = rv.get('pl') or {}
+            proj = list(pl.get('p') or [])
+            key = pl.get('l')
+            while proj and proj[0] == '*':          # reborrow `&mut *r`
+                r = st.get(key)
+                if not (isinstance(r, tuple) and r[0] == 'ref'):
+                    return None
+                key = r[1]
+                proj.pop(0)
+            return ('ref', key) if not proj and key is not None else None
+        if k == 'agg' and rv.get('adt') == CONFIG:
+            out = _cfg_top(self.F)
+            for f, o in zip(rv.get('fields') or [], rv.get('ops') or []):
+                v = self.operand(body, st, o)
+                out[f] = v if isinstance(v, frozenset) else _TOP
+            return out
+        if k == 'unop' and rv.get('op') == 'Not':
+            v = self.operand(body, st, rv.get('a') or rv.get('o') or {})
+            if isinstance(v, frozenset):
+                return frozenset({'true': 'false', 'false': 'true'}.get(x, '?') for x in v)
+        return None
+
+    def call(self, body, st, t, depth):
+        """Effect of a call terminator on st (in place); returns the value of the destination."""
+        F = self.F
+        args = [self.operand(body, st, o) for o in t['a']]
+        d = (t.get('f') or {}).get('def') or ''
+        decl = (t.get('f') or {}).get('decl') or ''
+        result = None
+        handled = False
+        if d == '<bool as core::default::Default>::default':
+            return frozenset(['false'])
+        if decl == 'core::clone::Clone::clone' and (t['f'].get('self') == CONFIG):
+            a = args[0] if args else None
+            return st.get(a[1]) if isinstance(a, tuple) and a[0] == 'ref' and isinstance(st.get(a[1]), dict) else None
+        cb = F.bodies.get(d)
+        interesting = _is_config_ty(t.get('dty')) or t.get('dty') == 'bool' or any(_is_config_ty(x) for x in t.get('at') or [])
+        if cb is not None and interesting and depth > 0 and cb.kind in ('Fn', 'AssocFn') and len(cb.blocks) <= 60:
+            cst = {}
+            outs = {}
+            for i, a in enumerate(args):
+                if isinstance(a, tuple) and a[0] == 'ref':
+                    ext = ('ext', i)
+                    if st.get(a[1]) is not None:
+                        cst[ext] = st[a[1]]
+                    cst[i + 1] = ('ref', ext)
+                    outs[ext] = a[1]
+                elif a is not None:
+                    cst[i + 1] = a
+            states = self.flow(cb, cst, depth - 1)
+            fin = None
+            rets = [b for b in cb.return_blocks() if states.get(b) is not None]
+            for b in rets:
+                fin = _cfg_state_join(fin, self.block_out(cb, states[b], b, depth - 1))
+            if rets and fin is not None:
+                handled = True
+                result = fin.get(0)
+                if isinstance(result, tuple):
+                    result = None
+                for ext, key in outs.items():
+                    if str((t.get('at') or [''] * 9)[ext[1]]).startswith('&mut'):
+                        if fin.get(ext) is None:
+                            st.pop(key, None)
+                        else:
+                            st[key] = fin[ext]
+        if not handled:
+            for a, ty in zip(args, t.get('at') or []):
+                if isinstance(a, tuple) and a[0] == 'ref' and str(ty).startswith('&mut'):
+                    st.pop(a[1], None)
+        return result
+
+    def block_out(self, body, st, b, depth):
+        st = dict(st)
+        for s in body.blocks[b]['s']:
+            if s['k'] == 'assign':
+                self.write(body, st, s['lhs'], self.rvalue(body, st, s['rv']))
+        return st
+
+    def flow(self, body, init, depth):
+        """{block: state on entry} (None = not reached)."""
+        states = {0: dict(init)}
+        work = [0]
+        n = 0
+        while work:
+            n += 1
+            if n > 20000:
+                raise Exception('Config value flow does not converge in %s' % body.fn)
+            b = work.pop()
+            st = self.block_out(body, states[b], b, depth)
+            t = body.blocks[b]['t']
+            outs = {}
+            if t['k'] == 'call':
+                st2 = dict(st)
+                v = self.call(body, st2, t, depth)
+                if t.get('dest') is not None:
+                    self.write(body, st2, t['dest'], v)
+                for s_ in body.succ(b):
+                    outs[s_] = st2
+            else:
+                live = body.succ(b)
+                if t['k'] == 'switch' and t.get('dty') == 'bool':
+                    # a branch on a flag whose value is known (a constant handed to a helper) takes one edge only
+                    dv = self.operand(body, st, t['d'])
+                    if isinstance(dv, frozenset) and len(dv) == 1 and '?' not in dv:
+                        want = 1 if 'true' in dv else 0
+                        hit = [tg for val, tg in t['ts'] if val == want]
+                        live = [hit[0] if hit else t['else']]
+                for s_ in live:
+                    outs[s_] = st
+            for s_, o in outs.items():
+                old = states.get(s_)
+                new = _cfg_state_join(old, o) if old is not None else dict(o)
+                if old is None or new != old:
+                    states[s_] = new
+                    work.append(s_)
+        return states
+
+
+def _config_default(F):
+    ev = _ConfigEval(F)
+    b = F.body('<%s as core::default::Default>::default' % CONFIG)
+    fake = {'k': 'call', 'f': {'def': b.fn, 'decl': 'core::default::Default::default', 'self': CONFIG}, 'a': [], 'at': [], 'dty': CONFIG}
+    v = ev.call(b, {}, fake, 3)
+    return v if isinstance(v, dict) else None
+
+
+def _config_at_call(F, body, blk, operand):
+    """Abstract Config ({field: set of 'true'/'false'/'?'}) of `operand` at the call terminating block blk, or None (unknown)."""
+    ev = _ConfigEval(F)
+    states = ev.flow(body, {}, 3)
+    if states.get(blk) is None:
+        return None
+    st = ev.block_out(body, states[blk], blk, 3)
+    v = ev.operand(body, st, operand)
+    if isinstance(v, tuple) and v[0] == 'ref':
+        v = st.get(v[1])
+    return v if isinstance(v, dict) else None
+
+
 @RS.rule('C04.R5', 'K-TABLE', 'anchoring and shortest/longest tables of case, trim and the literal fast path; first matching case item')
 def r5(cx):
     F = cx.F
-    # (a) case: both anchors
-    cb = F.body(CASE + 'config')
-    cx.fn(cb.fn)
-    w = {f: c for b, s, f, c in _config_writes(cb)}
-    cx.site('case::config sets %s' % sorted(w.items()))
-    cx.cellcount(2)
-    if w != {'anchor_begin': 'true', 'anchor_end': 'true'}:
-        cx.violation(cb.fn, 'case-anchors', 'a case pattern must match the whole subject: config must set exactly anchor_begin and '
-                     'anchor_end (found %s)' % sorted(w.items()), loc=cb.loc(cb.d))
+    # (a) case: the Config VALUE that reaches every compile site of the case module (followed through helpers, whatever their name or
+    #     module): both anchors true on every path, every other switch (literal_period, case_insensitive, shortest_match) false on every path
+    fields = _config_fields(F)
+    cx.require({'anchor_begin', 'anchor_end', 'literal_period'} <= set(fields), 'yash_fnmatch::Config has no anchor_begin / anchor_end / literal_period field')
+    case_sites = [(b_, i_, t_) for b_, i_, t_ in F.callers_of(lambda names, t: any(n in COMPILERS for n in names)) if b_.root.startswith(CASE)]
     mb = F.main_body(CASE + 'matches')
     cx.fn(mb.root)
+    if not case_sites:
+        cx.violation(mb.root, 'case-compile-site-missing', 'no pattern is compiled in the case module: the configuration case patterns are '
+                     'compiled with cannot be established', loc=mb.loc(mb.d))
+    for cbody, cblk, t in case_sites:
+        cx.fn(cbody.root)
+        name = pp.callee(t).split('::')[-1]
+        if len(t['a']) >= 2 and _is_config_ty((t.get('at') or [None, None])[1]):
+            val = _config_at_call(F, cbody, cblk, t['a'][1])
+        else:
+            val = None if name not in ('parse', 'new') else _config_default(F)     # Pattern::parse(p) = parse_with_config(p, Config::default())
+        shown = 'unknown' if val is None else ', '.join('%s=%s' % (f, '|'.join(sorted(val[f]))) for f in fields)
+        cx.site('%s: %s(.., Config{%s})' % (cbody.root, name, shown))
+        cx.cellcount(len(fields))
+        for f in fields:
+            want = 'true' if f in ('anchor_begin', 'anchor_end') else 'false'
+            got = {'?'} if val is None else set(val[f])
+            if got == {want}:
+                continue
+            if f in ('anchor_begin', 'anchor_end'):
+                msg = 'a case pattern must match the whole subject: Config::%s must be true on every path to %s (found %s)' % (f, name, sorted(got))
+            elif f == 'literal_period':
+                msg = ('the leading-period rule belongs to pathname expansion only (XCU 2.13.3): a case pattern is compiled with '
+                       'Config::literal_period possibly true (found %s), so `case .profile in *)` matches nothing' % sorted(got))
+            else:
+                msg = 'a case pattern is compiled with Config::%s possibly true (found %s): it no longer denotes the POSIX pattern' % (f, sorted(got))
+            if got == {'?'}:
+                msg += ' [the value could not be followed to Config::default() and constant field writes]'
+            cx.violation(cbody.root, 'case-config:%s' % f, msg, loc=cbody.loc(t))
     du = Q.DefUse(mb)
-    for b, t in Q.find_calls(mb, [PWC]):
-        src = Q.value_source(mb, du, t['a'][1])
-        cx.site('case::matches: parse_with_config(.., %s)' % (pp.callee(src) if src else '?'))
-        if not (src is not None and Q.callee_is(src, [CASE + 'config'])):
-            cx.violation(mb.root, 'case-config-source', 'case patterns are not compiled with case::config()', loc=mb.loc(t))
     # matches: Ok(true) only after is_match returned true
     oks = []
     for b, j, s in Q.find_aggregates(mb, 'core::result::Result', 'Ok'):
@@ -2096,3 +2363,7 @@ def r9(cx):
 
 
 RS.explanation += ' The character escaped by an unquoted backslash from an expansion is the next non-quoting one (R9).'
+
+RS.explanation += (' The anchoring of case (R5a) is decided on the Config VALUE that reaches each compile site of the case module - Config::default() '
+                   'and constant field writes followed through helpers of any name or module (by value, by &mut, constant flags) - both anchors '
+                   'true and literal_period / case_insensitive / shortest_match false on every path: the leading-period rule is pathname expansion\'s only.')
